@@ -345,7 +345,7 @@ fn c18_configs(tier: Tier) -> Vec<uring::UCfg> {
             page_cache: true,
             capacity: None,
             odirect: false,
-            letters: vec![A_READ0, A_WRITE0, A_WRITE3, A_FSYNC, A_CANCEL_LAST, A_CANCEL_DONE, A_SUBMIT0, A_ADV_FULL, A_DRAIN0, A_DRAIN_ONE0, A_CLOSE],
+            letters: vec![A_READ0, A_WRITE0, A_WRITE3, A_FSYNC, A_CANCEL_LAST, A_CANCEL_DONE, A_SUBMIT0, A_ADV_HALF, A_ADV_FULL, A_DRAIN0, A_DRAIN_ONE0, A_CLOSE],
         },
     ];
     // a capacity limit: writes past end-of-file are charged for the hole they leave, exactly
